@@ -118,4 +118,106 @@ def Rpc.tickSeeded (s : Rpc) : Rpc × List REv :=
       let r := Rpc.completeAll { s with ring := [] :: others, vn := vn' } kRequestTimeout items
       (if vn' = 0 then { r.1 with timerOn := false } else r.1, r.2)
 
+/-! ### the timed layer: clock advances instead of bare ticks -/
+
+inductive TOp where
+  | request (chain : Bool)
+  | notify
+  | response (id : Int) (code : Int)
+  | adv (ms : Nat)                     -- the clock advances and the loop runs
+deriving Repr, DecidableEq
+
+def stepT (s : Rpc) : TOp → Rpc × List REv
+  | .request c => s.request c
+  | .notify => (s, [.sent 0])
+  | .response id code => s.respond id code
+  | .adv ms => s.advance ms
+
+def runT (s : Rpc) : List TOp → Rpc × List REv
+  | [] => (s, [])
+  | op :: ops =>
+    let r1 := stepT s op
+    let r2 := runT r1.1 ops
+    (r2.1, r1.2 ++ r2.2)
+
+/-- one executed tick: the expiry time it was scheduled for, the clock when it ran, the ids it handed out -/
+structure TickRec where
+  sched : Nat
+  clock : Nat
+  items : List Nat
+deriving Repr, DecidableEq
+
+/-- the ticks `Rpc.expire` executes (same recursion, recording instead of returning events) -/
+def Rpc.expireLog : Nat → Rpc → List TickRec
+  | 0, _ => []
+  | fuel + 1, s =>
+    if s.timerOn ∧ s.due ≤ s.now then
+      ⟨s.due, s.now, s.nextItems⟩ :: Rpc.expireLog fuel (({ s with due := s.due + 1000 }).tick).1
+    else []
+
+/-- all ticks executed along a timed run -/
+def logT (s : Rpc) : List TOp → List TickRec
+  | [] => []
+  | op :: ops =>
+    (match op with
+     | .adv ms => Rpc.expireLog (ms / 1000 + 2) { s with now := s.now + ms }
+     | _ => []) ++ logT (stepT s op).1 ops
+
+/-- the timer's phase is sane: while enabled, its expiry lies in the next interval -/
+def TimeInv (s : Rpc) : Prop := s.timerOn = true → s.now < s.due ∧ s.due ≤ s.now + 1000
+
+/-! ### server half: op sequences and what must be sent -/
+
+inductive SOp where
+  | recv (id : Int) (svc : Service)     -- a request arrives
+  | respond (id code : Int)             -- the application calls respond()
+  | tick                                -- the respond_timeout_ timer fires
+deriving Repr, DecidableEq
+
+def Srv.step (s : Srv) : SOp → Srv × List SEv
+  | .recv id svc => s.recvRequest id svc
+  | .respond id code => s.respond id code
+  | .tick => (s.tick, [])
+
+def Srv.run (s : Srv) : List SOp → Srv × List SEv
+  | [] => (s, [])
+  | op :: ops =>
+    let r1 := s.step op
+    let r2 := Srv.run r1.1 ops
+    (r2.1, r1.2 ++ r2.2)
+
+/-- responses sent with id `i` -/
+def sentCount (i : Int) : List SEv → Nat
+  | [] => 0
+  | .sent j _ :: es => (if j = i then 1 else 0) + sentCount i es
+  | .called _ :: es => sentCount i es
+
+/-- the responses with id `i` the op sequence calls for: one per request to a synchronous
+service (unless it is a notification), one error per request to an unknown method, one per
+`respond()` call of the application (id 0 excepted) — and nothing else -/
+def expectedSends (i : Int) : List SOp → Nat
+  | [] => 0
+  | .recv j (.sync _) :: ops => (if j = i ∧ j ≠ 0 then 1 else 0) + expectedSends i ops
+  | .recv j .unknown :: ops => (if j = i then 1 else 0) + expectedSends i ops
+  | .recv _ .async :: ops => expectedSends i ops
+  | .respond j _ :: ops => (if j = i ∧ j ≠ 0 then 1 else 0) + expectedSends i ops
+  | .tick :: ops => expectedSends i ops
+
+/-! ### two peers: what the client sees of a world run -/
+
+def clientOp (w : World) : WOp → List Op
+  | .request c _ => [.request c]
+  | .notify _ => [.notify]
+  | .deliver false i =>
+    match w.s2c[i]? with
+    | some m => [.response m.1 m.2]
+    | none => []
+  | .ctick => [.tick]
+  | _ => []
+
+/-- the client-side op sequence a world run amounts to, whatever the server and the pipe do -/
+def clientOps (w : World) : List WOp → List Op
+  | [] => []
+  | op :: ops => clientOp w op ++ clientOps (w.step op).1 ops
+
 end Tbox.C14
